@@ -177,3 +177,46 @@ func VH_C09_ReaderClose(n int) {
 	vhAssert(errors.Is(err4, io.EOF), "read-after-close-fails-with-EOF")
 	vhReach("c09-reader-close")
 }
+
+// A Reader with a consumer group: Reader.Close returns only after the group was left - LeaveGroup for the current
+// member id was sent and answered - and nothing is sent to the coordinator afterwards.
+func VH_C09_GroupReaderClose() {
+	vhConcreteClock(true)
+	co := &vhCoordinator{}
+	co.joinResp = joinGroupResponse{GenerationID: 3, MemberID: "m1", LeaderID: "someone-else", GroupProtocol: "range"}
+	co.syncResp = syncGroupResponseV0{MemberAssignments: groupAssignment{Version: 1, Topics: map[string][]int32{}}.bytes()}
+	cfg := ConsumerGroupConfig{ID: "g", Brokers: []string{"vh:9092"}, Topics: []string{"t"}, HeartbeatInterval: time.Second, JoinGroupBackoff: time.Second}
+	cfg.connect = func(*Dialer, ...string) (coordinator, error) { return co, nil }
+	cg, nerr := NewConsumerGroup(cfg)
+	vhAssert(nerr == nil, "group-created")
+	stctx, stop := context.WithCancel(context.Background())
+	r := &Reader{
+		config:   ReaderConfig{GroupID: "g", Topic: "t", MaxAttempts: 3, CommitInterval: 0, Brokers: []string{"vh:9092"}},
+		msgs:     make(chan readerMessage, 4),
+		done:     make(chan struct{}),
+		stctx:    stctx,
+		stop:     stop,
+		cancel:   func() {},
+		stats:    &readerStats{},
+		runError: make(chan error),
+		commits:  make(chan commitRequest, 4),
+	}
+	go r.run(cg)
+	vhSettle()
+	vhAssert(co.joins == 1, "reader-joined-the-group")
+	closedCh := make(chan struct{})
+	go func() { r.Close(); close(closedCh) }()
+	<-closedCh
+	left := false
+	for _, c := range co.calls {
+		if c == "leaveGroup:m1" {
+			left = true
+		}
+	}
+	vhAssert(left, "reader-close-returns-after-LeaveGroup-was-sent")
+	n := len(co.calls)
+	vhSettle()
+	vhSettle()
+	vhAssert(len(co.calls) == n, "nothing-is-sent-to-the-coordinator-after-close-returned")
+	vhReach("c09-group-reader-close")
+}
